@@ -254,6 +254,20 @@ def run_C19(ctx, E):
     stage_record_trace(ctx, E, "calls", "C19_Trace", "C19_Trace.cfg", heap="8g")
 
 
+def run_C02(ctx, E):
+    ctx.exhaustive = True
+    side = os.path.join(ctx.work, "c02_printed.ndjson")
+    os.environ["C02_PRINTED"] = side
+    os.environ["C02_EVERY"] = str(T(ctx, 3, 400))
+    stage_mc_replay(ctx, E, "exprs", "C02_MC", "C02_MC_%s.cfg" % ctx.tier, timeout=3300, heap="28g")
+    # the written-back text of the enumerated expressions, judged by the specification's INSDC recogniser
+    n = sum(1 for _ in open(side))
+    if n == 0:
+        raise E.Machinery("no printed locations were collected")
+    validate_trace(ctx, E, "printed", "C02_Trace", "C02_Trace.cfg", side, n, heap="8g")
+    stage_record_trace(ctx, E, "random", "C02_Trace", "C02_Trace.cfg", heap="8g")
+
+
 def run_C10(ctx, E):
     ctx.exhaustive = True
     for e in (("e1", "e2", "e4") if ctx.tier == "quick" else ("e1", "e2", "e3", "e4")):
@@ -271,6 +285,23 @@ _seqhash_note = ("trusted: TLC, community modules; the digest is uninterpreted i
                  "in the replayer by a from-scratch BLAKE3 transcription pinned by the official test vectors; "
                  "double-stranded inputs containing Z or (under type DNA) U are outside the strand clause and not replayed")
 PROPS = {
+    "C02": dict(run=run_C02,
+                technique="TLC exhaustive enumeration of location expressions with the INSDC denotation, printer and a "
+                          "recursive-descent recogniser (Location.tla); every expression replayed through the location "
+                          "parser, a GenBank record and an assembled structure; printed locations judged by the "
+                          "specification's recogniser (C02_Trace)",
+                level_text="every expression with <= 2 operators over a 4-base parent (quick) / <= 3 operators over a "
+                           "6-base parent (thorough, binary joins, 2.9 M expressions), partial markers on expressions of "
+                           "<= 1 operator, is a TLC state: Parse(Print(x)) = x and complement-involution hold on the "
+                           "definition; the real sequence of each expression - parsed as text, parsed inside a GenBank "
+                           "record, assembled as a structure - must equal the INSDC reading under two parents; the text "
+                           "written back by BuildLocationString is recognised by the specification's INSDC grammar and must "
+                           "denote the same bases with the same partial leaves (sampled 1/400 in thorough); random "
+                           "expressions to depth 4 with joins of 2..6 operands on parents of 1..2000 bases likewise",
+                level_note="trusted: TLC, community modules, the minimal GenBank record used to embed a location; the "
+                           "build-tag-verif export of the location parser",
+                rule="S->I: one case per expression (6 evaluations each); I->S: one event per random expression / sampled "
+                     "printed location"),
     "C19": dict(run=run_C19,
                 technique="TLC exhaustive evaluation of a fixed-point nearest-neighbour specification (Melting.tla: "
                           "ten duplex parameters closed under reverse complement, logarithm table on a grid) with "
